@@ -236,3 +236,99 @@ def _multi_bound_origin(f, g, inl, maps, name, bs, use_stmt):
         return None
     bad = [o for o in origins if o[0] == "detached"]
     return bad[0] if bad else origins[0]
+
+
+# ---------------------------------------------------------------------- branch tests evaluated in a small model
+class _Unknown:
+    def __repr__(self):
+        return "UNKNOWN"
+
+
+UNKNOWN = _Unknown()
+
+
+class Raises(Exception):
+    """evaluating the expression in the model raises (attribute of None, ...)"""
+
+
+def eval_model(e: ast.expr, leaf):
+    """Value of the side-effect free test `e` when `leaf(expr)` gives the value of the sub-expressions the model
+    knows (a Python value), UNKNOWN for those it does not, or raises `Raises`.  not / and / or short-circuit as in
+    Python, with UNKNOWN propagated three-valued; comparisons is / is not / == / != / < / <= / > / >=."""
+    v = leaf(e)
+    if v is not NotImplemented:
+        return v
+    if isinstance(e, ast.Constant):
+        return e.value
+    if isinstance(e, ast.UnaryOp) and isinstance(e.op, ast.Not):
+        x = eval_model(e.operand, leaf)
+        return UNKNOWN if x is UNKNOWN else (not x)
+    if isinstance(e, ast.BoolOp):
+        is_and = isinstance(e.op, ast.And)
+        unknown = False
+        last = None
+        for sub_ in e.values:
+            try:
+                x = eval_model(sub_, leaf)
+            except Raises:
+                if unknown:          # whether this operand is evaluated at all is not known
+                    return UNKNOWN
+                raise
+            if x is UNKNOWN:
+                unknown = True
+                continue
+            if bool(x) != is_and:    # decisive operand: false in `and`, true in `or`
+                return x if not unknown else (not is_and)
+            last = x
+        return UNKNOWN if unknown else last
+    if isinstance(e, ast.IfExp):
+        t = eval_model(e.test, leaf)
+        if t is UNKNOWN:
+            return UNKNOWN
+        return eval_model(e.body if t else e.orelse, leaf)
+    if isinstance(e, ast.Compare) and len(e.ops) == 1:
+        a, b = eval_model(e.left, leaf), eval_model(e.comparators[0], leaf)
+        if a is UNKNOWN or b is UNKNOWN:
+            return UNKNOWN
+        op = e.ops[0]
+        try:
+            if isinstance(op, ast.Is):
+                return a is b
+            if isinstance(op, ast.IsNot):
+                return a is not b
+            if isinstance(op, ast.Eq):
+                return a == b
+            if isinstance(op, ast.NotEq):
+                return a != b
+            if isinstance(op, ast.Lt):
+                return a < b
+            if isinstance(op, ast.LtE):
+                return a <= b
+            if isinstance(op, ast.Gt):
+                return a > b
+            if isinstance(op, ast.GtE):
+                return a >= b
+        except TypeError:
+            raise Raises(unparse(e))
+    return UNKNOWN
+
+
+def model_cut(g, leaf):
+    """branch edges (node, label, succ) that the model excludes: the outcome the test does not have; both outcomes
+    of a test whose evaluation raises"""
+    from ._helpers_rules_c import outcome
+    out = []
+    for n in g.nodes:
+        if n.kind != "test":
+            continue
+        try:
+            v = eval_model(n.stmt.test, leaf)
+        except Raises:
+            v = Raises
+        for b, lab0 in g.succ[n.id]:
+            lab = outcome(g, n.id, lab0)
+            if lab is None:
+                continue
+            if v is Raises or (v is not UNKNOWN and bool(v) != (lab == "true")):
+                out.append((n.id, lab0, b))
+    return out
